@@ -182,6 +182,12 @@ impl StateMachine<'_> {
         if new_section {
             writeln!(self.painter.writer, "--")?;
         }
+        if grep_line.code.is_empty() && grep_line.line_number.is_none() {
+            // An empty line without a line number: there is nothing to paint, but the
+            // line must not disappear from the output.
+            writeln!(self.painter.writer)?;
+            return Ok(());
+        }
         // Emit the actual grep hit line
         let code_style_sections = match (&grep_line.line_type, &grep_line.submatches) {
             (LineType::Match, Some(_)) => {
